@@ -32,6 +32,8 @@ def run(tier: str) -> int:
     rnd = drv.random_scenarios(400 if tier == "quick" else 6000, tier)
     recs += pmap(drv.exec_c10_random, rnd)
     recs += pmap(drv.exec_c10, drv.snapper_scenarios(tier))
+    # tempo lists in offset form whose changes are anchored slightly off the previous segment's grid
+    recs += pmap(drv.exec_anchored, drv.anchored_scenarios(300 if tier == "quick" else 4000))
     # 4. TLC judges every record
     rejects, consumed, wall = validate_traces("TempoTrace", "TempoTrace", recs, tag=f"c10-{tier}")
     chk.add_traces(recs, rejects)
